@@ -9,6 +9,7 @@ package rosort
 //@ func Sort$1$1
 //@   props C18
 //@   binds subscriberCtx destination source
+//@   calls CollectWithContext CompleteWithContext ErrorWithContext NextWithContext Slice
 //@   maypanic
 //@   track call.CollectWithContext call.Slice call.SliceStable destination.* loop.*
 //@   ensures [source-error-is-forwarded|C18] res(call.CollectWithContext, 2) != nil ==> trace(call.CollectWithContext(subscriberCtx, source), destination.ErrorWithContext(res(call.CollectWithContext, 1), res(call.CollectWithContext, 2)))
@@ -22,6 +23,7 @@ package rosort
 //@ func SortFunc$1$1
 //@   props C18
 //@   binds subscriberCtx destination source
+//@   calls CollectWithContext CompleteWithContext ErrorWithContext NextWithContext Slice
 //@   maypanic
 //@   track call.CollectWithContext call.Slice call.SliceStable destination.* loop.*
 //@   ensures [source-error-is-forwarded|C18] res(call.CollectWithContext, 2) != nil ==> trace(call.CollectWithContext(subscriberCtx, source), destination.ErrorWithContext(res(call.CollectWithContext, 1), res(call.CollectWithContext, 2)))
@@ -35,6 +37,7 @@ package rosort
 //@ func SortStableFunc$1$1
 //@   props C18
 //@   binds subscriberCtx destination source
+//@   calls CollectWithContext CompleteWithContext ErrorWithContext NextWithContext SliceStable
 //@   maypanic
 //@   track call.CollectWithContext call.Slice call.SliceStable destination.* loop.*
 //@   ensures [source-error-is-forwarded|C18] res(call.CollectWithContext, 2) != nil ==> trace(call.CollectWithContext(subscriberCtx, source), destination.ErrorWithContext(res(call.CollectWithContext, 1), res(call.CollectWithContext, 2)))
